@@ -23,7 +23,9 @@ WITNESSES = {'quick': ['mutated-returned-value', 'mutated-cached-value', 'mutate
 EDGES = ['ret-sb', 'ret-bf', 'ret-sb-nested', 'ret-bf-nested', 'args-sb', 'args-bf', 'kwargs-sb', 'kwargs-bf', 'list_dir', 'walk',
          # one container object occurring twice inside a value: the two occurrences arrive as independent copies (a JSON round
          # trip has no sharing)
-         'shared-args-sb', 'shared-args-bf', 'shared-ret-sb', 'shared-ret-bf']
+         'shared-args-sb', 'shared-args-bf', 'shared-ret-sb', 'shared-ret-bf',
+         # the callee keeps a reference to the very object it returned and edits it after the call has returned
+         'kept-ret-sb', 'kept-ret-bf']
 MUTS = ['append', 'pop', 'clear', 'nested-append', 'nested-setitem']
 
 
@@ -74,8 +76,14 @@ def harness(eng, fam, P):
         l = [i, [j]]
         return {'a': l, 'b': l, 'c': [l, l]}
 
+    kept = []
+
     def leaf_sb(b, *args, **kw):
         calls.append('leaf')
+        if fam.startswith('kept-ret'):
+            v_ = pristine()
+            kept.append(v_)
+            return v_
         if fam.startswith('shared-ret'):
             return twice()
         if fam.startswith('shared-args'):
@@ -88,7 +96,7 @@ def harness(eng, fam, P):
 
     def leaf_bf(b, fn, *args, **kw):
         calls.append('leaf')
-        if fam.startswith('shared-'):
+        if fam.startswith('shared-') or fam.startswith('kept-'):
             w.user_write(w.fs, fn, 5)
             return leaf_sb(b, *args, **kw) if calls.pop() else None
         for a in list(args) + list(kw.values()):
@@ -148,6 +156,13 @@ def harness(eng, fam, P):
             a = [i, [j]]
             r = call_leaf(b, 'sb' if fam == 'kwargs-sb' else 'bf', (), {'opt': a})
             seen.append(copy.deepcopy(a))
+            return 0
+        if fam.startswith('kept-ret'):
+            r = call_leaf(b, 'sb' if fam.endswith('sb') else 'bf')
+            seen.append(copy.deepcopy(r))
+            if kept:
+                do_mut(kept[-1], how, x)        # the function's own object, edited after the call returned
+                del kept[:]
             return 0
         if fam.startswith('shared-args'):
             a = [i, [j]]
